@@ -54,10 +54,16 @@ Value& MAXExpression::value(Context & ctx) const
       v = Value(Value::type_integer);
       break;
     case Type::INTEGER:
-      v = Value(Integer(std::max<int64_t>(*a0.integer(), *a1.integer())));
+      if (a0.isNull() || a1.isNull())
+        v = Value(Value::type_integer);
+      else
+        v = Value(Integer(std::max<int64_t>(*a0.integer(), *a1.integer())));
       break;
     case Type::NUMERIC:
-      v = Value(Numeric(std::max<double>((double)*a0.integer(), *a1.numeric())));
+      if (a0.isNull() || a1.isNull())
+        v = Value(Value::type_numeric);
+      else
+        v = Value(Numeric(std::max<double>((double)*a0.integer(), *a1.numeric())));
       break;
     default:
       throw RuntimeError(EXC_RT_FUNC_ARG_TYPE_S, KEYWORDS[oper]);
@@ -70,10 +76,16 @@ Value& MAXExpression::value(Context & ctx) const
       v = Value(Value::type_numeric);
       break;
     case Type::INTEGER:
-      v = Value(Numeric(std::max<double>(*a0.numeric(), (double)*a1.integer())));
+      if (a0.isNull() || a1.isNull())
+        v = Value(Value::type_numeric);
+      else
+        v = Value(Numeric(std::max<double>(*a0.numeric(), (double)*a1.integer())));
       break;
     case Type::NUMERIC:
-      v = Value(Numeric(std::max<double>(*a0.numeric(), *a1.numeric())));
+      if (a0.isNull() || a1.isNull())
+        v = Value(Value::type_numeric);
+      else
+        v = Value(Numeric(std::max<double>(*a0.numeric(), *a1.numeric())));
       break;
     default:
       throw RuntimeError(EXC_RT_FUNC_ARG_TYPE_S, KEYWORDS[oper]);
